@@ -358,14 +358,15 @@ def _applicable(ctx, real, info, exc, batches):
         # what is seen must fit the mechanism: either the spline constructor refused the
         # abscissae, or the table really has one point more on that side
         seen_lo = unsorted or (rp.size and int(np.sum(
-            rp <= info["old_min"] + info["tol_x"])) == info["n_lo"] + 2)
+            np.abs(rp - info["old_min"]) <= info["tol_x"])) >= 2)
         seen_hi = (rp.size
                    and float(rp[-1]) > max(info["new_max"], info["old_max"]) + info["tol_x"])
         if alo == info["n_lo"]:
             seen_lo = False
         if ahi == info["n_hi"]:
             seen_hi = False
-        if emptied and fn.R == 1 and ahi > info["n_hi"] > 0:
+        if emptied and fn.R == 1 and ahi > info["n_hi"] > 0 and \
+                info.get("new_rows_nonfinite", 0) == 0:
             xo = info["old_max"] + (info["p_max"] + 1) * (info["new_max"] - info["old_max"]) \
                 / info["p_max"]
             if bool(fn.bad(np.array(xo))):
